@@ -31,6 +31,8 @@ def _resolve(table, sel):
 
 def _walk(case):
   """yields (statement, table) for the bind / block statements of every call"""
+  if isinstance(case, dict):
+    case = case['calls']
   for call in case:
     table, dyn = {}, False
     for st in call:
